@@ -72,6 +72,38 @@ def c16_1(ctx):
     except Exception:
         val = None
     ctx.check(val is not None and " ".join(val.split()) == " ".join(SPEC.ALERT.split()), "alert-sublayout", ctx.where(f), "alert payload layout is %r" % (val,))
+    # post-unpack processors add derived entries (the parsed alert payload, the matched transactions of a merkleblock); one that
+    # OVERWRITES a field of the message's own layout changes what was on the wire, and the parsed message no longer packs back to it
+    pu = ctx.func(MPP, "standard_message_post_unpacks")
+    reg = {}
+    for n in ast.walk(sym.expanded(ctx, pu)):
+        if isinstance(n, ast.Call) and isinstance(n.func, ast.Name) and n.func.id == "dict":
+            for k in n.keywords:
+                if k.arg is not None:
+                    reg[k.arg] = k.value
+        elif isinstance(n, ast.Dict):
+            for k, v in zip(n.keys, n.values):
+                if isinstance(k, ast.Constant) and isinstance(k.value, str):
+                    reg[k.value] = v
+    if not reg:
+        ctx.undecided("post-unpack-keeps-fields", ctx.where(pu), "standard_message_post_unpacks does not return a literal table of processors")
+    for mname, v in sorted(reg.items()):
+        layout = msgs.get(mname)
+        if layout is None:
+            continue
+        fields = {n for n, _t in _letters(layout)}
+        target = None
+        if isinstance(v, ast.Name):
+            target = ctx.p.resolve_global(pu.module, v.id)
+        if target is None or not hasattr(target, "node"):
+            ctx.ok("post-unpack:%s" % mname, nontrivial=False)
+            continue
+        dparam = target.params()[0] if target.params() else None
+        hit = [n for n in ast.walk(target.node) if isinstance(n, ast.Subscript) and isinstance(n.ctx, (ast.Store, ast.Del)) and isinstance(n.value, ast.Name) and n.value.id == dparam
+               and isinstance(n.slice, ast.Constant) and n.slice.value in fields]
+        ctx.check(not hit, "post-unpack-keeps-fields:%s" % mname, ctx.where(target, hit[0]) if hit else ctx.where(target),
+                  "the post-unpack processor of `%s` overwrites the field `%s` of the message's own layout: what was on the wire is not what the caller gets, and packing the parsed fields again gives other bytes"
+                  % (mname, hit[0].slice.value if hit else ""), sample={"message": mname, "processor": target.qualname, "layout_fields_overwritten": 0})
     # parser and packer split the layout the same way
     _refcheck(ctx, MPP, "_make_parser", "mpp_make_parser", "parser-split")
     _refcheck(ctx, MPP, "make_parser_and_packer.pack_from_data", "mpp_pack_from_data", "packer-split")
